@@ -263,6 +263,8 @@ pub struct World {
     mid_migration_ops: u64,
     /// harness model: proxies the plan has failed and not re-registered since
     down: BTreeSet<String>,
+    /// proxies that were failed over while free (the broker marks them failed) and have not registered again
+    down_free: BTreeSet<String>,
 }
 
 const LIMITS: [u64; 4] = [0, 1, 2, 3];
@@ -287,6 +289,7 @@ impl World {
             failovers_checked: 0,
             mid_migration_ops: 0,
             down: BTreeSet::new(),
+            down_free: BTreeSet::new(),
         }
     }
 
@@ -433,6 +436,21 @@ impl World {
                 self.viol("C12", "free-pool-mismatch", format!("after {}: {} tagged {:?} but in no chunk", opdesc, addr, r.cluster));
             }
         }
+        // the free pool: registered, in no cluster, not failed; a proxy the harness saw failing over
+        // stays out of it until it registers again
+        let members: BTreeSet<String> = seen.keys().cloned().collect();
+        for hp in store.get_free_proxies() {
+            let a = hp.proxy_address;
+            if members.contains(&a) {
+                self.viol("C12", "free-pool-mismatch", format!("after {}: {} is in a cluster and in the free pool", opdesc, a));
+            }
+            if !store.all_proxies.contains_key(&a) {
+                self.viol("C12", "free-pool-mismatch", format!("after {}: {} is in the free pool but not registered", opdesc, a));
+            }
+            if self.down_free.contains(&a) {
+                self.viol("C12", "failed-proxy-in-free-pool", format!("after {}: {} was failed over and has not registered again, but is offered as a free proxy", opdesc, a));
+            }
+        }
         match block_on(self.svc.check_metadata()) {
             Ok(None) => {}
             Ok(Some(_)) => self.viol("C12", "check-metadata", format!("after {}: broker's own consistency check fails", opdesc)),
@@ -500,6 +518,8 @@ impl World {
             for a in fresh.iter() {
                 if before.failed_proxies.contains(*a) || before.failures.contains_key(*a) {
                     self.viol("C06", "allocated-failed-proxy", format!("{}: {} allocated although failed/reported", opdesc, a));
+                } else if self.down_free.contains(*a) {
+                    self.viol("C06", "allocated-failed-proxy", format!("{}: {} allocated although it was failed over and has not registered again (the broker forgot its failed mark)", opdesc, a));
                 }
                 if before.all_proxies.get(*a).map(|r| r.cluster.is_some()).unwrap_or(true) {
                     self.viol("C12", "allocated-in-use", format!("{}: {} allocated although not free", opdesc, a));
@@ -536,6 +556,9 @@ impl World {
             _ => {
                 if res.is_ok() && before.all_proxies.contains_key(&addr) {
                     self.rec.probe("failover_free_proxy");
+                    // the harness's own record: this proxy was declared failed while free and stays
+                    // out of every allocation until it registers again
+                    self.down_free.insert(addr.clone());
                 }
                 return;
             }
@@ -562,6 +585,8 @@ impl World {
                 let newa = newp.get_address().to_string();
                 if before.failed_proxies.contains(&newa) || before.failures.contains_key(&newa) {
                     self.viol("C06", "allocated-failed-proxy", format!("{}: replacement {} is failed/reported", opdesc, newa));
+                } else if self.down_free.contains(&newa) {
+                    self.viol("C06", "allocated-failed-proxy", format!("{}: replacement {} was failed over and has not registered again (the broker forgot its failed mark)", opdesc, newa));
                 }
                 if before.all_proxies.get(&newa).map(|r| r.cluster.is_some()).unwrap_or(true) {
                     self.viol("C12", "allocated-in-use", format!("{}: replacement {} was not free", opdesc, newa));
@@ -713,6 +738,7 @@ impl World {
                 let r = block_on(self.svc.add_proxy(payload(*h, *i, index)));
                 self.reports.remove(&addr);
                 self.down.remove(&addr);
+                self.down_free.remove(&addr);
                 if r.is_ok() || r == Err(MetaStoreError::AlreadyExisted) {
                     if self.prop == "C18" {
                         let failures = block_on(self.svc.get_failures()).unwrap_or_default();
@@ -1153,6 +1179,7 @@ impl World {
                                 if let Ok(p) = serde_json::from_value::<ProxyResourcePayload>(v) {
                                     let _ = block_on(self.svc.add_proxy(p));
                                     self.down.remove(&a);
+                                    self.down_free.remove(&a);
                                 }
                             }
                         }
